@@ -362,9 +362,11 @@ def run_case(case, repo):
             field_pt[f"w{n}_fld"] = pt
             field_pt[f"r{n}_fld"] = pt
         weird = False
-        for a, r in zip(case["adds"], out["adds"]):
+        results = out["adds"] if len(out["adds"]) == len(case["adds"]) else [None] * len(case["adds"])
+        for a, r in zip(case["adds"], results):
+            # (a config-file load that was aborted reports one result for all lines: be conservative)
             f = a["line"].split(":")
-            if r == "ok" and len(f) == 7 and any(c25_gen.parse_bound(b) is None for b in f[3:]):
+            if r in ("ok", None) and len(f) == 7 and any(c25_gen.parse_bound(b) is None for b in f[3:]):
                 weird = True
         try:
             for st in case["steps"]:
